@@ -96,6 +96,9 @@ def to_Fourier(R_2D, Z_2D, nfp, mpol, ntor, lasym):
         nmin = -ntor
         if m==0: nmin = 1
         for n in range(nmin, ntor+1):
+            # Modes beyond the Nyquist frequency of the grid alias onto lower modes
+            # and would be counted twice by the inverse transform, so leave them zero.
+            if m > ntheta / 2 or abs(n) > nphi_conversion / 2: continue
             angle = m * theta2d - n * nfp * phi2d
             sinangle = np.sin(angle)
             cosangle = np.cos(angle)
